@@ -27,6 +27,11 @@ EDITS = [
  ("setu64.rs", "p_remove forgets to advance", r"previous = jj;\n", "\n"),
  ("setu64.rs", "Tiny::to_usize shift", r"self\.sz as usize \| self\.bits << 3", "self.sz as usize | self.bits << 4"),
  ("setu64.rs", "Tiny::from_usize mask", r"sz: x as u8 & 7,", "sz: x as u8 & 3,"),
+ ("setu64.rs", "contains dense word index", r"(pub fn contains[\s\S]*?)let key = e >> 6;", r"\g<1>let key = e >> 5;"),
+ ("setu64.rs", "contains dense bit", r"bits & \(1 << \(e & 63\)\) != 0", "bits & (1 << (e & 31)) != 0"),
+ ("setu64.rs", "contains heap drops the width test", r"(pub fn contains[\s\S]*?)if compute_array_bits\(e\) < s\.bits \{", r"\g<1>if compute_array_bits(e) + 1 < s.bits {"),
+ ("setu64.rs", "contains big placeholder test", r"(pub fn contains[\s\S]*?)if e == s\.bits \{\s*return false;", r"\g<1>if e == s.bits + 1 {\n                    return false;"),
+ ("setu64.rs", "contains big forgets the stand-in for 0", r"(pub fn contains[\s\S]*?)let e = if e == 0 \{ s\.bits \} else \{ e \};", r"\g<1>let e = if e == 0 { e } else { e };"),
  ("setu64.rs", "BITSPLITS row", r"&\[25, 12, 12, 12\]", "&[26, 12, 12, 12]"),
  ("setu32.rs", "log_2 width", r"(fn log_2\(x: u32\)[\s\S]*?)num_bits::<u32>\(\) as u32 - x\.leading_zeros\(\)", r"\g<1>num_bits::<u32>() as u32 + 1 - x.leading_zeros()"),
  ("setu32.rs", "compute_array_bits large threshold", r"else if log_2\(mx\) > 62 \{", "else if log_2(mx) > 31 {"),
@@ -48,7 +53,7 @@ def main():
     shutil.copytree("/repo/src", W + "/repo/src")
     sh(f"rsync -a --exclude .lake/build/bin {V}/lean/ {W}/lean/")
     env = dict(os.environ, VERIF_REPO=W + "/repo", VERIF_GEN_OUT=W + "/lean/TinysetModel/Generated")
-    target = "TinysetModel.Proofs.Consts TinysetModel.Proofs.Fns TinysetModel.Proofs.Loops TinysetModel.Proofs.Fits"
+    target = "TinysetModel.Proofs.Consts TinysetModel.Proofs.Fns TinysetModel.Proofs.Loops TinysetModel.Proofs.ContainsSrc TinysetModel.Proofs.Fits"
     rc, out = sh(f"python3 {V}/tools/gen_consts.py && lake build {target}", cwd=W + "/lean", env=env)
     if rc != 0:
         print("baseline does not build:", out[-800:]); return 2
